@@ -1,4 +1,5 @@
 import RF.Lemmas.Sort
+import RF.Gen.SortCalls
 
 /-!
 # C11  Reordering is a deterministic, order-insensitive permutation
@@ -273,5 +274,19 @@ example :
             .run .mod [⟨.modDecl, false, false, 4, 4⟩],
             .single ⟨.modDecl, true, false, 5, 6⟩,
             .run .use [⟨.use, false, false, 7, 7⟩]] := by decide
+
+/-! ## The sorting calls of the code are stable sorts (generated table) -/
+
+/-- `stableSort_unique` / `order_independent` are statements about a STABLE sort.  That the reordering code
+calls one is read off the source on every run: `translate/c11_sorts.py` lists every sorting call of
+`src/reorder.rs`, `src/imports.rs` and the impl-item reordering of `src/items.rs` with its method name;
+`sort`, `sort_by`, `sort_by_key`, `sort_by_cached_key` are stable by the contract of `std`, `sort_unstable*` is not.
+If this stops checking, rank-equal declarations (alias-only twins, same-named `#[cfg]` modules) no longer
+keep their input order and two permutations of one group may format differently. -/
+theorem sort_calls_stable : ∀ c ∈ RF.Gen.SortCalls.calls, c.2.2 = true := by decide
+
+/-- Non-vacuity: the table is not empty and covers the three files. -/
+example : RF.Gen.SortCalls.calls.length ≥ 6 ∧
+    (RF.Gen.SortCalls.calls.map (·.1)).eraseDups.length = 3 := by decide
 
 end RF.Props.C11
